@@ -496,9 +496,11 @@ def count_sweep(
             requires("pandas", reason="count_sweep", extras="pandas")
             import pandas as pd
 
-            df = pd.DataFrame(list(sweep))
             cols = list(arg_combination)
-            counts[_output_name] = df[cols].groupby(cols).size().to_dict()  # type: ignore[assignment]
+            df = pd.DataFrame(list(sweep), columns=None if sweep else cols)
+            sizes = df[cols].groupby(cols).size().to_dict()
+            # a single group key is reported as a scalar: always use tuples, like the default method
+            counts[_output_name] = {(k,) if len(cols) == 1 else k: n for k, n in sizes.items()}
         else:
             _cnt: dict[tuple[Any, ...], int] = {}
             for combo in sweep:
